@@ -22,6 +22,9 @@ type CrashParams struct {
 	// RecrashEvery: on every n-th image that runs the suffix, the suffix is recorded and its own crash
 	// images are enumerated (a crash during the first transactions after a crash recovery); 0 = never
 	RecrashEvery int
+	// FromFirstFailure (queue histories): enumerate only crash positions from shortly before the first
+	// failing writer call (the file ran full) onwards
+	FromFirstFailure bool
 	// Base: durable content before the first logged op (second level enumeration)
 	Base []byte
 	level int
